@@ -15,6 +15,7 @@
 EXTENDS SCProps, Json
 
 Traces == ndJsonDeserialize("traces.ndjson")
+CONSTANT PropSet
 
 VARIABLES ti, l
 tvars == <<mi, ti, l>>
@@ -58,6 +59,7 @@ Init == /\ ti \in 1..Len(Traces) /\ l = 0 /\ mi = Traces[ti].mi
 Next == /\ l < Len(Traces[ti].steps) /\ l' = l + 1 /\ UNCHANGED <<mi, ti>>
 Spec == Init /\ [][Next]_tvars
 
+On(p, v) == IF p \in PropSet THEN v ELSE {}
 Verdict ==
   LET j == Traces[ti].steps[l']
       eng == Traces[ti].eng
@@ -67,11 +69,11 @@ Verdict ==
       out == OutOf(j.out)
   IN [ti |-> ti, l |-> l', tag |-> Traces[ti].tag,
       impl_match |-> ImplMatch(pre, step, post, out, eng),
-      prop |-> [C01 |-> C01(pre, step, post, out),
-                C02 |-> C02(pre, step, post, out),
-                C03 |-> C03(pre, step, post, out),
-                C10 |-> C10(pre, step, post, out, eng),
-                C11 |-> C11(pre, step, post, out, eng)]]
+      prop |-> [C01 |-> On("C01", C01(pre, step, post, out)),
+                C02 |-> On("C02", C02(pre, step, post, out)),
+                C03 |-> On("C03", C03(pre, step, post, out)),
+                C10 |-> On("C10", C10(pre, step, post, out, eng)),
+                C11 |-> On("C11", C11(pre, step, post, out, eng))]]
 
 Emit == PrintT(ToJson(Verdict))
 =============================================================================
